@@ -178,7 +178,10 @@ def check_call(ctx, rows, hs, method, cl, dist, transpose=False, h_float=False, 
         ok = impl[0] == "err" and core.is_err(m) and impl[1] == m
         ctx.case(desc, False)
         ctx.count("err" if ok else "err_mismatch")
-        if not ok:
+        if not ok and impl[0] == "err" and not core.is_err(m):
+            # a valid call (the model returns values) that raises: the statistics are not what the property states
+            ctx.violation("diebold_mariano raises on a valid input", desc, "values", str(impl[1])[:200])
+        elif not ok:
             ctx.tie_fail("diebold_mariano: error behaviour differs", desc, str(impl[1])[:200], str(m)[:200])
         return None
     ds = impl[1]
@@ -239,8 +242,7 @@ def check_call(ctx, rows, hs, method, cl, dist, transpose=False, h_float=False, 
         q = host_quantile(dist, cl, n)
         fm = ctx.model("c19_ci", enc_list([enc_num(im["mean"]), enc_num(q), enc_num(stat)]))
         up, lo = core.dec_num(fm[0]), core.dec_num(fm[1])
-        if not (core.close(im["ci_upper"], up, 1e-9) and core.close(im["ci_lower"], lo, 1e-9)):
-            ctx.tie_fail("ci formulas differ from mean * (1 +- q / stat)", sd, [im["ci_upper"], im["ci_lower"]], [str(up), str(lo)])
+        faithful = core.close(im["ci_upper"], up, 1e-9) and core.close(im["ci_lower"], lo, 1e-9)   # = mean * (1 +- q / stat), IEEE-style
         if math.isfinite(stat):
             brackets = im["ci_lower"] <= im["mean"] <= im["ci_upper"]       # False when an end point is NaN
             if method == "HLN" and not isinstance(row["se_sq"], float):
@@ -251,14 +253,17 @@ def check_call(ctx, rows, hs, method, cl, dist, transpose=False, h_float=False, 
                 half = None
             width_ok = half is None or (close_f(im["ci_upper"] - im["mean"], half, rel=1e-6, ab=1e-9)
                                         and close_f(im["mean"] - im["ci_lower"], half, rel=1e-6, ab=1e-9))
-            if not (brackets and width_ok):
-                zero_mean = (im["mean"] == 0.0 and stat == 0.0 and math.isnan(im["ci_upper"]) and math.isnan(im["ci_lower"]))
+            if brackets and width_ok:
+                ctx.count("ci:brackets")
+            else:
+                # the recorded deviation: exactly-zero mean, statistic 0, and the code equals the faithful formula (0 * inf = NaN)
+                zero_mean = (im["mean"] == 0.0 and stat == 0.0 and faithful and math.isnan(im["ci_upper"]) and math.isnan(im["ci_lower"]))
                 ctx.violation("finite statistic but the interval does not bracket the mean with half-width q*|mean/stat|", sd,
                               {"mean": im["mean"], "half_width": half}, {"ci_lower": im["ci_lower"], "ci_upper": im["ci_upper"], "stat": stat},
                               finding_key=FINDING if zero_mean else None)
                 ctx.count("ci:zero_mean_nan" if zero_mean else "ci:violation")
-            else:
-                ctx.count("ci:brackets")
+        elif not faithful:
+            ctx.tie_fail("ci end points for a non-finite statistic differ from mean * (1 +- q / stat)", sd, [im["ci_upper"], im["ci_lower"]], [str(up), str(lo)])
     ctx.case(desc, finite_any)
     if sample:
         ctx.sample(desc)
